@@ -87,6 +87,39 @@ Section Conn.
         end
     end.
 
+  (** *** The repaired code (fix "client: an emit never overtakes the packets parked before it"):
+      _sendBuffers takes sendBufferMu FIRST, reads the state under it and sends directly only when
+      the socket is Connected AND nothing is parked; otherwise the packet is parked behind the older
+      ones.  The flush (emitBuffered) runs under the same mutex, so decision and flush exclude each
+      other: there is no stale read any more ([CParkStale] is not a step of the repaired system).
+      [cstep] above stays as the model of the code before the repair. *)
+  Definition cstep_fix (tr : transport) (a : caction) (c : cstate) : option cstate :=
+    match a with
+    | CEmit i =>
+        match nth_error (st_em (c_base c)) i with
+        | Some (p :: rest) =>
+            let b := set_em (set_nth (st_em (c_base c)) i rest) (c_base c) in
+            if c_connected c && (match c_sendbuf c with [] => true | _ => false end)
+            then Some (mkC true (c_sendbuf c) (c_parked c) (c_hist c ++ [(i, p)]) (enqueue [(i, p)] b))
+            else Some (mkC (c_connected c) (c_sendbuf c ++ frames_of p) (c_parked c ++ [(i, p)])
+                           (c_hist c ++ [(i, p)]) b)
+        | _ => None
+        end
+    | CParkStale _ => None
+    | _ => cstep tr a c
+    end.
+
+  Definition crun_fix (tr : transport) (sched : list caction) (progs : list (list (spacket data)))
+    : cstate :=
+    exec (cstep_fix tr) sched (cinit progs).
+
+  Definition crun_fix_opt (tr : transport) (sched : list caction) (progs : list (list (spacket data)))
+    : option cstate :=
+    exec_opt (cstep_fix tr) sched (cinit progs).
+
+  Definition creachable_fix (tr : transport) (progs : list (list (spacket data))) : cstate -> Prop :=
+    reachable (cstep_fix tr) (fun c => c = cinit progs).
+
   Definition crun (tr : transport) (sched : list caction) (progs : list (list (spacket data))) : cstate :=
     exec (cstep tr) sched (cinit progs).
 
